@@ -182,10 +182,14 @@ def selftest(ctx, module, traces, pick, mutate, expect):
     write_traces(one, [t, [{"op": "End"}]])
     r = ctx.tlc_validate(module, one, cfg=module + "_diag.cfg", ntraces=0)
     mv = re.search(r'@@VIOL\s+(-?\d+)\s+(-?\d+)\s+(-?\d+)\s*([^"\s]*)', r["out"])
-    if r["ok"] or not mv or not mv.group(4).startswith(expect):
-        raise vlib.MachineryError("selftest %s: corrupted history was not rejected with %s (%s)" % (module, expect, mv.group(0) if mv else r["ok"]))
-    vlib.log("selftest %s: corrupted field rejected with %s" % (module, mv.group(4)))
-    ctx.extra.setdefault("selftest", {})[module] = mv.group(4)
+    got = mv.group(4) if (mv and not r["ok"]) else None
+    if got is None:      # deterministic trace specs report a failed obligation as a verdict line and go on
+        tags = [m.group(2) for m in re.finditer(r'@@VERDICT (\d+) ([^"\s]+)', r["out"])]
+        got = next((x for x in tags if x.startswith(expect)), tags[0] if tags else None)
+    if not got or not got.startswith(expect):
+        raise vlib.MachineryError("selftest %s: corrupted history was not rejected with %s (%s)" % (module, expect, got))
+    vlib.log("selftest %s: corrupted field rejected with %s" % (module, got))
+    ctx.extra.setdefault("selftest", {})[module] = got
 
 
 def count_histories(ctx, traces, keyf, nontrivial):
@@ -342,6 +346,8 @@ def crash_class(msg):
         return "nilptr"
     if "index out of range" in msg:
         return "index-out-of-range"
+    if "slice bounds out of range" in msg:
+        return "slice-bounds"
     m = re.sub(r"[^A-Za-z ]+", "", msg.replace("panic: ", "")).strip().replace(" ", "-")
     return m[:60] or "panic"
 
@@ -490,14 +496,157 @@ def check_sem(ctx, drv):
     selftest(ctx, "Trace_LimitsSem", traces, lambda t: any(e["op"] == "Obs" for e in t), corrupt_sem, "C17.sem.len.above")
 
 
+# ----------------------------------------------------------------------------------------------- session level
+
+SESS_DEFAULTS = {"sub": "", "idx": 0}
+
+
+def sess_describe(t, pos, tag):
+    c = t[0]
+    sub = c.get("sub")
+    ev = t[pos] if pos < len(t) else {}
+    cfgs = {"uploadq": "cap=%s fast=%s" % (c.get("cap"), c.get("fast")),
+            "pipeline": "reqq=%s maxout=%s fast=%s" % (c.get("reqq"), c.get("maxout"), c.get("fast")),
+            "ram": "limit=%s plens=%s" % (c.get("limit"), c.get("plens")),
+            "webseed": "k=%s caps=%s capd=%s variant=%s" % (c.get("k"), c.get("caps"), c.get("capd"), c.get("variant")),
+            "rate": "kind=%s rate=%s" % (c.get("kind"), c.get("rate")),
+            "config": "row=%s" % c.get("idx")}.get(sub, "")
+    if tag == "C17.sess.crash":
+        crash = next((e for e in t if e["op"] == "Crash"), {})
+        obl = "C17.%s.crash" % sub
+        sig = "sub=%s tag=%s class=%s where=%s" % (sub, obl, crash_class(crash.get("msg", "")), crash.get("where"))
+        return obl, sig, "session crashed (%s at %s) in %s scenario %s%s" % (crash.get("msg"), crash.get("where"), sub, cfgs,
+                                                                               (" cfg=" + json.dumps(c.get("cfg"), sort_keys=True)) if sub == "config" else "")
+    if tag == "C17.sess.hang":
+        hang = next((e for e in t if e["op"] == "Hang"), {})
+        obl = "C17.%s.hang" % sub
+        sig = "sub=%s tag=%s what=%s %s" % (sub, obl, hang.get("what"), cfgs if sub != "config" else "")
+        return obl, sig, "%s does not return / finish in %s scenario %s%s; blocked rain frames: %s" % (
+            hang.get("what"), sub, cfgs, (" cfg=" + json.dumps(c.get("cfg"), sort_keys=True)) if sub == "config" else "", hang.get("where"))
+    obl = tag
+    extra = ""
+    if tag == "C17.webseed.sources":
+        extra = " observed=%s" % ev.get("sources")
+    if tag.startswith("C17.webseed.active"):
+        extra = " observed=%s" % ev.get("active")
+    sig = "sub=%s tag=%s %s%s" % (sub, tag, cfgs, extra)
+    return obl, sig, "%s scenario (%s) violates %s at event %d: %s" % (sub, cfgs, tag, pos, json.dumps(ev)[:300])
+
+
+def check_sess(ctx, drv):
+    """Session-level limits on a real torrent.Session (shared harness vh): upload queue, request pipeline, write cache,
+    web-seed caps, rate limits, generated configurations.  All drivers run concurrently (children of harness/c17);
+    the small design models are checked meanwhile; one TLC run judges all histories."""
+    import concurrent.futures as cf
+    q = ctx.quick()
+    plan = []   # (sub, mode, first, n, tag)
+
+    def shards(sub, total, k, mode="", base=0):
+        per = (total + k - 1) // k
+        for i in range(k):
+            lo, hi = i * per, min(total, (i + 1) * per)
+            if lo < hi:
+                plan.append((sub, mode, lo, hi, base + i))
+    shards("uploadq", 10, 5, base=100)
+    shards("pipeline", ctx.pick(15, 45), ctx.pick(5, 9), base=110)
+    shards("ram", ctx.pick(8, 16), 4, base=120)
+    shards("webseed", ctx.pick(30, 60), 6, base=130)
+    for j, m in enumerate(("down", "up", "ws")):
+        shards("rate", ctx.pick(1, 3), ctx.pick(1, 3), mode=m, base=140 + 3 * j)
+    shards("config", ctx.pick(30, 60), 6, base=150)
+
+    def drive(item):
+        sub, mode, lo, hi, tag = item
+        out = ctx.path("sess-%s-%s-%d.ndjson" % (sub, mode or "x", tag))
+        seed = ctx.seed * 100 + (tag if sub != "config" else 0)       # config: one covering array per check seed
+        ctx.run_drv(drv, ["-sub", sub, "-mode", mode, "-seed", str(seed), "-first", str(lo), "-n", str(hi), "-out", out], timeout=900)
+        return out
+    with cf.ThreadPoolExecutor(max_workers=len(plan)) as ex:
+        futs = [ex.submit(drive, it) for it in plan]
+        # design level, while the drivers run
+        for mod, cfg in (("LimitsSessUQ", "MC_LimitsSessUQ.cfg"), ("LimitsSessPL", "MC_LimitsSessPL.cfg"), ("LimitsSessWS", "MC_LimitsSessWS.cfg")):
+            mc(ctx, mod, cfg, timeout=600)
+        if not q:
+            for mod, cfg in (("LimitsSessUQ", "MC_LimitsSessUQ_zero.cfg"), ("LimitsSessPL", "MC_LimitsSessPL_reqq.cfg"), ("LimitsSessWS", "MC_LimitsSessWS_zero.cfg")):
+                mc(ctx, mod, cfg, timeout=600)
+            for mod, cfg, key in (("LimitsSessUQ", "MC_LimitsSessUQ_mut.cfg", "sess_model_uploadq_off_by_one"),
+                                  ("LimitsSessPL", "MC_LimitsSessPL_mut.cfg", "sess_model_pipeline_off_by_one")):
+                ok, _ = mc(ctx, mod, cfg, timeout=600, expect_ok=False)
+                ctx.extra[key] = "not detected by the bound (model)" if ok else "violates the bound the scripted peer checks (model)"
+        ok, _ = mc(ctx, "LimitsSessWS", "MC_LimitsSessWS_asis.cfg", timeout=600, expect_ok=False)
+        ctx.extra["sess_model_asis_webseed_counter"] = "no error" if ok else "webseedActiveDownloads leaves [0, cap]: a corrupt piece frees a slot although its download has already ended"
+        outs = [f.result() for f in futs]
+    traces = []
+    for o in outs:
+        traces += read_traces(o)
+    traces = normalise(traces, SESS_DEFAULTS)
+    stalls = []
+    for t in traces:
+        c = t[0]
+        sub = c["sub"]
+        key = tuple((e["op"], e.get("i"), e.get("p"), e.get("b"), e.get("size"), e.get("active"), e.get("downloads")) for e in t)
+        ctx.count_case((sub, json.dumps(c, sort_keys=True), key), len(t) > 2)
+        if sub == "uploadq":
+            ctx.oblig("C17.uploadq", sum(1 for e in t if e["op"] == "UQEnd") if c["rated"] and any(e["op"] == "UQMarker" for e in t) else 0)
+            ctx.oblig("C17.uploadq.refused", sum(1 for e in t if e["op"] == "UQReject"))
+        elif sub == "pipeline":
+            ctx.oblig("C17.pipeline", sum(1 for e in t if e["op"] == "PLReq"))
+            out, mx, ch = set(), 0, True
+            for e in t:
+                if e["op"] == "PLUnchoke":
+                    ch = False
+                elif e["op"] == "PLChoke":
+                    ch, out = True, set()
+                elif e["op"] == "PLReq" and not ch:
+                    out.add((e["p"], e["b"]))
+                    mx = max(mx, len(out))
+                elif e["op"] in ("PLPiece", "PLReject", "PLCancel"):
+                    out.discard((e["p"], e["b"]))
+            lim = min(c["reqq"] if c["reqq"] > 0 else c["defout"], c["maxout"])
+            ctx.oblig("C17.pipeline.atlimit", 1 if mx == lim else 0)
+        elif sub == "ram":
+            ctx.oblig("C17.ram", sum(1 for e in t if e["op"] in ("RamSnap", "RamStats", "RamRest")))
+            ctx.oblig("C17.ram.contended", 1 if any(e["op"] == "RamStats" and e["pending"] > 0 for e in t) else 0)
+            stalls += ["ram limit=%s torrent %d (piece fits) did not complete" % (c["limit"], e["tid"]) for e in t
+                       if e["op"] == "RamDone" and e["fits"] and not e["complete"]]
+        elif sub == "webseed":
+            ctx.oblig("C17.webseed.active", sum(1 for e in t if e["op"] == "WsSnap"))
+            ctx.oblig("C17.webseed.atcap", 1 if c["capd"] > 0 and any(e["op"] == "WsSnap" and e["ranges"] == c["capd"] for e in t) else 0)
+            ctx.oblig("C17.webseed.sources", 1 if c["k"] > c["caps"] and any(e["op"] == "WsSnap" for e in t) else 0)
+        elif sub == "rate":
+            for e in t:
+                if e["op"] == "RateBuckets":
+                    ctx.oblig("C17.rate." + c["kind"], 1 if e["dur"] >= 2500 and e["bytes"] * 10 >= e["total"] * 8 else 0)
+                    ctx.extra.setdefault("rate_runs", []).append({"kind": c["kind"], "rate": c["rate"], "bytes": e["bytes"], "ms": e["dur"]})
+        elif sub == "config":
+            ctx.oblig("C17.config", 1)
+            ctx.oblig("C17.config.transfer", sum(1 for e in t if e["op"] == "CfgDone" and e["completed"]))
+            for e in t:
+                if e["op"] == "CfgDone" and e["started"] and not e["completed"] and (c["cfg"]["ParallelWrites"] == 0 or c["cfg"]["ParallelReads"] == 0):
+                    stalls.append("config row %d: ParallelReads=%d ParallelWrites=%d: no progress (no crash, no blocked call)" % (
+                        c["idx"], c["cfg"]["ParallelReads"], c["cfg"]["ParallelWrites"]))
+    # design observations (never a verdict): a semaphore of size 0 blocks every read / write for ever
+    ctx.extra["sess_stalls"] = stalls[:12]
+    if traces:
+        ctx.sample({"sess_history_prefix": traces[0][:6]})
+    judge(ctx, "Trace_LimitsSess", traces, sess_describe, chunk=2000, max_lines=40000)
+
+    def corrupt_ws(t):
+        e = next(e for e in t if e["op"] == "WsSnap")
+        e["active"] = t[0]["capd"] + 1
+    selftest(ctx, "Trace_LimitsSess", traces, lambda t: t[0]["sub"] == "webseed" and t[0]["k"] <= t[0]["caps"] and any(e["op"] == "WsSnap" for e in t), corrupt_ws, "C17.webseed.active")
+
+
 # ----------------------------------------------------------------------------------------------- registry
 
 REQUIRED = {"rm": ("C17.rm.limit", "C17.rm.balance", "C17.rm.handshake", "C17.rm.notify", "C17.rm.cancel_before_request"),
             "cache": ("C17.cache.limit", "C17.cache.balance", "C17.cache.value", "C17.cache.parallel", "C17.cache.smallcfg"),
             "addr": ("C17.addr.limit", "C17.addr.balance", "C17.addr.atcapacity"),
-            "sem": ("C17.sem.limit", "C17.sem.len")}
+            "sem": ("C17.sem.limit", "C17.sem.len"),
+            "sess": ("C17.uploadq", "C17.uploadq.refused", "C17.pipeline", "C17.pipeline.atlimit", "C17.ram", "C17.ram.contended",
+                     "C17.webseed.active", "C17.webseed.atcap", "C17.rate.down", "C17.rate.up", "C17.rate.ws", "C17.config")}
 
-SUBCHECKS = [("rm", check_rm), ("cache", check_cache), ("addr", check_addr), ("sem", check_sem)]
+SUBCHECKS = [("rm", check_rm), ("cache", check_cache), ("addr", check_addr), ("sem", check_sem), ("sess", check_sess)]
 
 
 def run(ctx):
